@@ -205,7 +205,7 @@ def gen_cases_(ctx):
         for mode in MODES:
             for dt1, dt2 in DTYPE_PAIRS:
                 yield gen_typed_case(r, mode, dt1, dt2)
-    n_grid, n_rand = (65, 65) if not ctx.thorough else (800, 800)
+    n_grid, n_rand = (800, 800) if ctx.thorough else (130, 130) if ctx.extended else (65, 65)
     for k in range(n_grid):
         yield gen_case(r, True, r.choice([2, 3, 3, 4, 5, 7, 8, 9, 13, 15, 16, 17, 31, 32, 33, r.randint(2, 40)]))
     for k in range(n_rand):
